@@ -19,11 +19,6 @@ inductive Val where
   | obj (id : Nat)
 deriving DecidableEq, Repr, Inhabited
 
-def Val.truthy : Val → Bool
-  | .none => false
-  | .prim t => t
-  | .obj _ => true
-
 def Val.objId? : Val → Option Nat
   | .obj i => some i
   | _ => Option.none
@@ -58,7 +53,11 @@ def Heap.get (h : Heap) (x : Nat) : Option HObj := h[x]?
 
 /-- object ids held by the containment attributes of a list of attributes, in `_tx_attrs`
 order and list order: exactly the elements `get_children` recurses into
-(`if attr.cont:` … `follow(new_elem)`; values without `_tx_attrs` are inert). -/
+(`if attr.cont:` … `follow(new_elem)`; values without `_tx_attrs` are inert).
+A single value is followed when it `is not None`, the items of a list are all followed
+(`if new_elem_list:` tests the list, a textX-made `list`): the truth value, length, iteration,
+equality or hash of the *objects* (user classes may define all of these) is never consulted,
+so every object id in the attribute counts, whatever its class does. -/
 def contIdsL : List (MetaAttr × AVal) → List Nat
   | [] => []
   | (m, v) :: rest => (if m.cont then v.objIds else []) ++ contIdsL rest
